@@ -73,6 +73,9 @@ struct RefSweep { std::vector<cld> x; std::vector<ld> scale; };
 struct MinvOp {
     Dense<cld> M;
     std::function<std::vector<cld>(const std::vector<cld> &)> solve;
+    // optional additional error scale (already divided by the constant c of the caller) for smoothers whose rounding error is
+    // not governed by |M^-1| alone: Chebyshev passes a running first-order error bound of its recurrence here
+    std::function<std::vector<ld>(const std::vector<cld> &f, const std::vector<cld> &x)> extra_scale;
     MinvOp() {}
     MinvOp(const Dense<cld> &m) : M(m) {}
     std::vector<cld> operator()(const std::vector<cld> &r) const { return solve ? solve(r) : matvec(M, r); }
@@ -83,6 +86,7 @@ inline RefSweep ref_sweep(const Dense<cld> &Ad, const Dense<ld> &Aabs, const Min
     RefSweep o; o.x = add(x, Mop(r));
     std::vector<ld> t = addv(addv(absv(f), mulabs(Aabs, absv(x))), mulabs(Aabs, absv(o.x)));
     o.scale = addv(absv(x), mulabs(absd(Minv), t));
+    if (Mop.extra_scale) o.scale = addv(o.scale, Mop.extra_scale(f, x));
     // a floor for components that vanish exactly
     ld fl = 0; for (auto v : o.scale) fl = std::max(fl, v);
     for (auto &v : o.scale) v = std::max(v, fl * 1e-3L);
@@ -386,14 +390,58 @@ void prop_cheb(Tape &t, Ctx &ctx) {
     if (prm.scale) Minv = matmul(Minv, Di);
     // the closed form of T_d agrees with the recurrence used above (guards the reference itself)
     VF_REQUIRE(std::abs(cheb_T(deg, dd / cc) - T[deg]) <= 1e-12L * std::abs(T[deg]), "harness: Chebyshev reference inconsistent");
-    // rounding grows with the size of the intermediate polynomial values: use |Q| built from |Y| as the error scale matrix
-    check_sweeps<V>(t, ctx, "chebyshev", R, s, Minv, Minv);
+    // Rounding allowance of the recurrence.  The sweep is  for k < degree: r = S (f - A x); p = alpha_k r + beta_k p; x += p  with
+    // alpha_0 = 1/d, alpha_1 = 2d/(2d^2 - c^2), alpha_k = 1/(d - alpha_{k-1} c^2/4), beta_k = alpha_k d - 1.  An error committed in
+    // step k is carried through the remaining steps by the recurrence itself, so the allowance cannot be expressed by |M^-1| and the
+    // data alone: it grows with the degree and with the coefficients (|beta_k| -> 1 when lower -> 1, large intermediate x_k when the
+    // spectrum leaves [lo, hi]).  A running first-order bound in absolute values, evaluated on the long-double iterates, gives it:
+    //   e_r = g (|f| + |A||x_k|) + |A| e_x            (g = longest row + 3 rounding errors per residual component)
+    //   e_r = |S| e_r + (B + 1) |S||r|                (scaled variant; B = block size)
+    //   e_p = |alpha_k| e_r + |beta_k| e_p + 8 (|alpha_k||r| + |beta_k||p|)    (two products, one sum, and the coefficients themselves
+    //                                                  carry a few u: d and c come from a double-precision Gershgorin / power sum)
+    //   e_x = e_x + e_p + |x_{k+1}|
+    // and |x_computed - x_exact| <= 4 u e_x  (factor 4: second-order terms and the float -> double conversion of lower / higher).
+    long rowmax = 0;
+    for (ptrdiff_t i = 0; i < s.N; ++i) { long q = 0; for (ptrdiff_t j = 0; j < s.N; ++j) q += s.Ad(i, j) != cld(); rowmax = std::max(rowmax, q); }
+    const ld g = static_cast<ld>(rowmax + 3), cref = 8 * (s.N + 8);
+    Dense<ld> Dabs = absd(Di);
+    const bool scaled = prm.scale;
+    auto running_bound = [&s, Dabs, Di, g, cref, dd, cc, deg, scaled, Bs](const std::vector<cld> &f, const std::vector<cld> &x0) {
+        std::vector<cld> x = x0, p(s.N, cld());
+        std::vector<ld> ex(s.N, 0), ep(s.N, 0);
+        ld alpha = 0, beta = 0;
+        for (int k = 0; k < deg; ++k) {
+            std::vector<cld> r = sub(f, matvec(s.Ad, x));
+            std::vector<ld> er = mulabs(s.Aabs, ex), t0 = addv(absv(f), mulabs(s.Aabs, absv(x)));
+            for (ptrdiff_t i = 0; i < s.N; ++i) er[i] += g * t0[i];
+            if (scaled) {
+                std::vector<ld> e2 = mulabs(Dabs, er), a2 = mulabs(Dabs, absv(r));
+                for (ptrdiff_t i = 0; i < s.N; ++i) er[i] = e2[i] + (Bs + 1) * a2[i];
+                r = matvec(Di, r);
+            }
+            if (k == 0) { alpha = 1 / dd; beta = 0; }
+            else if (k == 1) { alpha = 2 * dd / (2 * dd * dd - cc * cc); beta = alpha * dd - 1; }
+            else { alpha = 1 / (dd - 0.25L * alpha * cc * cc); beta = alpha * dd - 1; }
+            for (ptrdiff_t i = 0; i < s.N; ++i) {
+                ep[i] = std::abs(alpha) * er[i] + std::abs(beta) * ep[i] + 8 * (std::abs(alpha) * std::abs(r[i]) + std::abs(beta) * std::abs(p[i]));
+                p[i] = cld(alpha, 0) * r[i] + cld(beta, 0) * p[i];
+                x[i] += p[i];
+                ex[i] += ep[i] + std::abs(x[i]);
+            }
+        }
+        for (auto &v : ex) v *= 4 / cref; // the callers multiply every scale by their constant c >= cref
+        return ex;
+    };
+    MinvOp Mop(Minv); Mop.extra_scale = running_bound;
+    check_sweeps<V>(t, ctx, "chebyshev", R, s, Mop, Mop);
     // apply = one sweep from zero
     {
         std::vector<Rh> f = gen_vector<V>(t, s.n);
         std::vector<cld> fd = expand<V>(f), zero(s.N, cld());
-        RefSweep r = ref_sweep(s.Ad, s.Aabs, Minv, fd, zero);
-        require_close<V>(apply_of<V>(R, s, f), r.x, r.scale, 8 * (s.N + 8), "chebyshev apply (sweep from 0)");
+        RefSweep r = ref_sweep(s.Ad, s.Aabs, Mop, fd, zero);
+        std::vector<Rh> got = apply_of<V>(R, s, f);
+        if (calib.on) { std::vector<ld> rb = running_bound(fd, zero); for (auto &v : rb) v *= cref / 4; calib.see("chebyshev apply err/(u running bound)", worst_ratio<V>(got, r.x, rb)); }
+        require_close<V>(got, r.x, r.scale, 8 * (s.N + 8), "chebyshev apply (sweep from 0)");
     }
     if (symmetric && !prm.scale) {
         // eigen-decomposition A = V diag(lambda) V^T: one sweep multiplies the error component along v_i by p(lambda_i)
